@@ -6,6 +6,8 @@ package seq
 
 import (
 	"fmt"
+
+	"verif/hc"
 )
 
 // Sys is one fresh instance of implementation + reference model.
@@ -108,6 +110,7 @@ func Explore(c *Config) Stats {
 				s := c.New()
 				bad := false
 				for _, o := range hist {
+					hc.Tick() // progress for the stall watchdog: a call into the code under test returned
 					if sig, _ := s.Apply(o); sig != "" {
 						bad = true // already reported at its own depth
 						break
@@ -118,6 +121,7 @@ func Explore(c *Config) Stats {
 					continue
 				}
 				sig, desc := s.Apply(op)
+				hc.Tick()
 				if counted {
 					st.Transitions++
 				}
